@@ -271,9 +271,17 @@ func (a *Application) translationHandler(trans translator.RequestTranslator) htt
 			pr.requestLogger.Warn("No endpoints available for model",
 				"model", pr.model,
 				"translator", trans.Name())
+			// model routing tells "unknown model" (404) apart from "model only on unhealthy
+			// endpoints" (503); keep that distinction for the client
+			status := http.StatusNotFound
+			if pr.profile != nil && pr.profile.RoutingDecision != nil &&
+				pr.profile.RoutingDecision.Action == ports.RoutingActionRejected &&
+				pr.profile.RoutingDecision.StatusCode == http.StatusServiceUnavailable {
+				status = http.StatusServiceUnavailable
+			}
 			a.writeTranslatorError(w, trans, pr,
 				fmt.Errorf("no healthy endpoints available for model: %s", pr.model),
-				http.StatusNotFound)
+				status)
 			a.recordTranslatorMetrics(trans, pr, constants.TranslatorModeTranslation, constants.FallbackReasonNoCompatibleEndpoints)
 			return
 		}
